@@ -50,6 +50,10 @@ def gen_cases(rng, count, tier='quick'):
             lam_mode=rng.choice(['default', 'default', 'zero', 'big', 'mixed']),
             constraints=(rng.random() < 0.25),
             max_terms=rng.choice([1, 2, 3]),
+            # units of the response (continuous families only): the optimum is equivariant, the code must not carry an absolute scale
+            y_scale=rng.choice([1.0, 1.0, 1.0, 1e-4, 1e-8, 1e4]) if dist in ('normal', 'gamma') else 1.0,
+            # what happened to the model object before the fit that is judged (used by the streams that look at histories)
+            history=rng.choice(['none', 'none', 'none', 'refit-lam', 'refit-lam', 'refit-data']),
         ))
     return cases
 
@@ -124,6 +128,8 @@ def build(case, pygam=None):
         span = (col.max() - col.min()) or 1.0
         eta += np.sin(3 * (col - col.min()) / span + j) * (1.0 if j == 0 else 0.4)
     y = _response(rs, case['dist'], case['link'], case['levels'], eta)
+    if case.get('y_scale', 1.0) != 1.0 and case['dist'] in ('normal', 'gamma'):
+        y = y * case['y_scale']
     wm = case['weights_mode']
     if wm == 'none':
         w = None
